@@ -41,6 +41,8 @@ RoleVerdicts(ev) ==
 ModelVerdicts(ev) ==
   (IF (ev.indep = 1 \/ ev.frozen = 1) /\ ev.pred # 1 THEN <<"export_changes_predictions">> ELSE <<>>)
   \o (IF (ev.indep = 1 \/ ev.frozen = 1) /\ ev.second # 1 THEN <<"second_export_changes_something">> ELSE <<>>)
+  \* consumer get_model_sparsity: proportion of exact zeros among the exported weights of the weight-bearing layers
+  \o (IF ev.spden > 0 /\ ev.spz # ev.zeros THEN <<"sparsity_is_not_the_share_of_zero_weights">> ELSE <<>>)
 Pw(k) == 2^k
 BnVerdicts(ev) ==
   IF \E c \in 1..Len(ev.gam) : ev.inv[c] # ev.gam[c] * Pw(2 - ev.J[c])
